@@ -528,7 +528,8 @@ def negslice_case(draw):
     if form == "stop":
         args = [None, draw(st.integers(-6, -1))]
     elif form == "start_stop":
-        args = [draw(st.integers(0, 5)), draw(st.integers(-6, -1))]
+        # (also starts much larger than |stop|: the skipped head must not be kept)
+        args = [draw(st.one_of(st.integers(0, 5), st.integers(6, 40))), draw(st.integers(-6, -1))]
     elif form == "negstart":
         args = [draw(st.integers(-6, -1)), None]
     elif form == "negstart_stop":
@@ -541,7 +542,7 @@ def negslice_case(draw):
     if form == "stop" and step is None and draw(st.booleans()):
         args = [args[1]]
     m = max(abs(a) for a in args[:2] if a is not None and a < 0) if len(args) > 1 else abs(args[0])
-    n = m + 15 + draw(st.integers(0, 15))
+    n = m + 15 + draw(st.integers(0, 15)) + (args[0] if form == "start_stop" else 0)
     pre = draw(st.lists(st.builds(lambda f: ["map", f], st.sampled_from(["id", "ctx_mut"])), max_size=1))
     post = draw(st.lists(st.builds(lambda f: ["map", f], st.sampled_from(["id", "ctx_mut"])), max_size=1))
     return {"args": args, "n": n, "pre": pre, "post": post, "form": form}
@@ -594,6 +595,11 @@ def judge_negslice(case):
         raise Violation("negative-slice-keeps-more-than-index-values-alive",
                         "Slice%s over %d values: %d earlier input values alive at the moment of a pull (|index| = %d): the flow is materialised" % (
                             tuple(args), n, src.max_alive, index))
+    if start is not None and stop is not None and start < 0 and stop < 0 and stop <= start and src.pulls:
+        # two negative indices with stop <= start select nothing whatever the flow is: no value is needed
+        raise Violation("negative-slice-empty-by-its-indices-pulls-input",
+                        "Slice%s over %d values: %d values pulled for a result that is empty for every flow (an endless flow would never return)" % (
+                            tuple(args), n, src.pulls))
     if got != exp:
         raise Violation("negative-slice-differs-from-list-slicing", "Slice%s over range(%d): %s expected %s" % (tuple(args), n, short(got), short(exp)))
     return {"nontrivial": len(exp) >= 1, "classes": ["form=" + case["form"], "step=%s" % step, "worst-alive-minus-index=%d" % (worst - index)]}
@@ -604,7 +610,7 @@ def judge_negslice(case):
 @st.composite
 def split_case(draw):
     bs = draw(st.lists(branch, min_size=1, max_size=3))
-    return {"branches": bs, "bufsize": draw(st.integers(1, 5)), "n": draw(st.sampled_from(list(range(7, 18)) * 2 + list(range(3, 7)) * 2 + [2, 1, 0])),
+    return {"branches": bs, "bufsize": draw(st.one_of(st.integers(1, 5), st.integers(1, 5), st.integers(1, 5), st.sampled_from([None, 1000]))), "n": draw(st.sampled_from(list(range(7, 18)) * 2 + list(range(3, 7)) * 2 + [2, 1, 0])),
             "copy_buf": draw(st.booleans()), "post": draw(st.lists(st.builds(lambda f: ["map", f], st.sampled_from(["id", "wrap"])), max_size=1)),
             "stop_after": draw(st.sampled_from([99, 99, 99, 5, 1, 2, 3, 0, 8, 13, 21]))}
 
@@ -631,9 +637,13 @@ def branch_ref(b, i):
 
 def judge_split(case):
     bs, bufsize, n = case["branches"], case["bufsize"], case["n"]
+    split_bufsize = bufsize
+    if bufsize is None or bufsize > n:
+        # one block holding the whole flow (read at the first next(), not before)
+        bufsize = max(n, 1)
     log, refs = [], []
     src = Src([mkval(i) for i in range(n)], log, refs=refs)
-    sp = Split([tuple(build_el(x, log) for x in b) for b in bs], bufsize=bufsize, copy_buf=case["copy_buf"])
+    sp = Split([tuple(build_el(x, log) for x in b) for b in bs], bufsize=split_bufsize, copy_buf=case["copy_buf"])
     seq = Sequence(sp, *[build_el(x, log) for x in case["post"]])
     check_idle(log, src, "construction", case)
     it = seq.run(src)
